@@ -16,7 +16,7 @@
 (* so the root module evaluates Tab once per instance and passes it down.     *)
 EXTENDS LibShapeTab, FiniteSets
 
-MkTab(objs, rows, forins) ==
+MkTab(objs, rows, forins) ==   \* (the probes of LibShapeTab!Probes are read directly: no mutation touches them)
     LET ids  == {objs[i].id : i \in 1..Len(objs)}
     IN  [objs |-> objs, rows |-> rows, forins |-> forins, ids |-> ids,
          oix  |-> [id \in ids |-> CHOOSE i \in 1..Len(objs) : objs[i].id = id],
